@@ -45,6 +45,11 @@ theorem tie_transition_skip :
 @[simp] theorem setHead_vault (d : Node) (v) : (d.setHead v).vault = d.vault := rfl
 @[simp] theorem setHead_pend (d : Node) (v) : (d.setHead v).pend = d.pend := rfl
 @[simp] theorem setHead_disk (d : Node) (v) : (d.setHead v).disk = d.disk := rfl
+@[simp] theorem setHead_replace (d : Node) (v) : (d.setHead v).replace = d.replace := rfl
+@[simp] theorem setTick_replace (d : Node) (v) : (d.setTick v).replace = d.replace := rfl
+@[simp] theorem setHeld_replace (d : Node) (v) : (d.setHeld v).replace = d.replace := rfl
+@[simp] theorem setPending_replace (d : Node) (v) : (d.setPending v).replace = d.replace := rfl
+@[simp] theorem setSync_replace (d : Node) (v) : (d.setSync v).replace = d.replace := rfl
 @[simp] theorem setTick_up (d : Node) (v) : (d.setTick v).up = d.up := rfl
 @[simp] theorem setTick_head (d : Node) (v) : (d.setTick v).head = d.head := rfl
 @[simp] theorem setTick_clock (d : Node) (v) : (d.setTick v).clock = d.clock := rfl
@@ -231,19 +236,19 @@ theorem valid_le_count (B : Nat) (held : Nat → Nat → Option Nat) (r e : Nat)
 /-- what the partial of (idx, ep) on round r does to a node -/
 theorem aggregate_cases (B : Nat) (d : Node) (idx ep r : Nat) :
     (¬ (d.head < r ∧ r ≤ d.head + Gen.partialCacheStoreLimit + 1) ∧ d.aggregate B idx ep r = d) ∨
-    (d.head < r ∧ valid B (addPartial d.held r idx ep) r d.vault.epoch < d.vault.grp.thr ∧
-      d.aggregate B idx ep r = d.setHeld (addPartial d.held r idx ep)) ∨
-    (d.head < r ∧ d.vault.grp.thr ≤ valid B (addPartial d.held r idx ep) r d.vault.epoch ∧ r ≠ d.head + 1 ∧
-      ∃ v, d.aggregate B idx ep r = (d.setHeld (flush (addPartial d.held r idx ep) r)).setSync v) ∨
-    (d.head < r ∧ d.vault.grp.thr ≤ valid B (addPartial d.held r idx ep) r d.vault.epoch ∧ r = d.head + 1 ∧
-      ∃ P, d.aggregate B idx ep r = ((d.setHeld (flush (addPartial d.held r idx ep) r)).put r).setPending P) := by
-  have hvc := valid_le_count B (addPartial d.held r idx ep) r d.vault.epoch
+    (d.head < r ∧ valid B (d.cacheAdd r idx ep) r d.vault.epoch < d.vault.grp.thr ∧
+      d.aggregate B idx ep r = d.setHeld (d.cacheAdd r idx ep)) ∨
+    (d.head < r ∧ d.vault.grp.thr ≤ valid B (d.cacheAdd r idx ep) r d.vault.epoch ∧ r ≠ d.head + 1 ∧
+      ∃ v, d.aggregate B idx ep r = (d.setHeld (flush (d.cacheAdd r idx ep) r)).setSync v) ∨
+    (d.head < r ∧ d.vault.grp.thr ≤ valid B (d.cacheAdd r idx ep) r d.vault.epoch ∧ r = d.head + 1 ∧
+      ∃ P, d.aggregate B idx ep r = ((d.setHeld (flush (d.cacheAdd r idx ep) r)).put r).setPending P) := by
+  have hvc := valid_le_count B (d.cacheAdd r idx ep) r d.vault.epoch
   by_cases hw : d.head < r ∧ r ≤ d.head + Gen.partialCacheStoreLimit + 1
   · have hwin : Gen.aggInWindow r d.head = true := by simp [Gen.aggInWindow, hw.1, hw.2]
-    by_cases hc : count B (addPartial d.held r idx ep) r < d.vault.grp.thr
+    by_cases hc : count B (d.cacheAdd r idx ep) r < d.vault.grp.thr
     · refine Or.inr (Or.inl ⟨hw.1, by omega, ?_⟩)
       simp [Node.aggregate, hwin, Gen.aggNotEnough, hc]
-    · by_cases hv : valid B (addPartial d.held r idx ep) r d.vault.epoch < d.vault.grp.thr
+    · by_cases hv : valid B (d.cacheAdd r idx ep) r d.vault.epoch < d.vault.grp.thr
       · refine Or.inr (Or.inl ⟨hw.1, hv, ?_⟩)
         simp [Node.aggregate, hwin, Gen.aggNotEnough, hc, hv]
       · by_cases hr : d.head + 1 ≠ r
@@ -257,7 +262,7 @@ theorem aggregate_cases (B : Nat) (d : Node) (idx ep r : Nat) :
           by_cases hl : r < d.lastTick
           · refine Or.inr (Or.inr (Or.inr ⟨hw.1, by omega, hr', d.pending ++ [r], ?_⟩))
             simp [Node.aggregate, hwin, Gen.aggNotEnough, hc, hv, Gen.tryAppendRefuse, hr, Gen.catchupLaunch, hl]
-          · refine Or.inr (Or.inr (Or.inr ⟨hw.1, by omega, hr', ((d.setHeld (flush (addPartial d.held r idx ep) r)).put r).pending, ?_⟩))
+          · refine Or.inr (Or.inr (Or.inr ⟨hw.1, by omega, hr', ((d.setHeld (flush (d.cacheAdd r idx ep) r)).put r).pending, ?_⟩))
             simp [Node.aggregate, hwin, Gen.aggNotEnough, hc, hv, Gen.tryAppendRefuse, hr, Gen.catchupLaunch, hl]
             rfl
   · refine Or.inl ⟨hw, ?_⟩
@@ -324,8 +329,8 @@ theorem told_aggregate {v : Vault} {t : Nat} {d : Node} (h : Told v t d) (B idx 
   · exact h
   · exact told_frame h rfl rfl rfl rfl rfl
   · exact told_frame h rfl rfl rfl rfl rfl
-  · exact told_frame (d := (d.setHeld (flush (addPartial d.held r idx ep) r)).put r)
-      (told_put (told_frame (d' := d.setHeld (flush (addPartial d.held r idx ep) r)) h rfl rfl rfl rfl rfl) r) rfl rfl rfl rfl rfl
+  · exact told_frame (d := (d.setHeld (flush (d.cacheAdd r idx ep) r)).put r)
+      (told_put (told_frame (d' := d.setHeld (flush (d.cacheAdd r idx ep) r)) h rfl rfl rfl rfl rfl) r) rfl rfl rfl rfl rfl
 
 theorem told_tickStep {v : Vault} {t : Nat} {d : Node} (h : Told v t d) (B i : Nat) : Told v t (d.tickStep B i).1 := by
   unfold Node.tickStep
@@ -521,6 +526,30 @@ theorem heldOk_add {reg : Nat → Grp} {held : Nat → Nat → Option Nat} (h : 
     | some x => simp only [hx] at he; cases he; rw [hc.2]; exact h r idx _ hx
   · simp only [hc, if_false] at he; exact h r' k e he
 
+theorem cacheAdd_entry {d : Node} {r idx ep r' k x : Nat} (h : d.cacheAdd r idx ep r' k = some x) :
+    d.held r' k = some x ∨ (r' = r ∧ k = idx ∧ x = ep) := by
+  unfold Node.cacheAdd at h
+  by_cases hc : r' = r ∧ k = idx
+  · cases hrep : d.replace with
+    | true =>
+      simp only [hrep, if_true, setPartial, hc, and_self] at h
+      right; exact ⟨hc.1, hc.2, by injection h with h; exact h.symm⟩
+    | false =>
+      simp only [hrep, Bool.false_eq_true, if_false, addPartial, hc, and_self, if_true] at h
+      obtain ⟨h1, h2⟩ := hc
+      subst h1; subst h2
+      cases hy : d.held r' k with
+      | none => rw [hy] at h; right; exact ⟨rfl, rfl, by injection h with h; exact h.symm⟩
+      | some y => rw [hy] at h; left; exact h
+  · cases hrep : d.replace <;> simp only [hrep, if_true, Bool.false_eq_true, if_false, setPartial, addPartial, hc] at h <;> exact Or.inl h
+
+theorem heldOk_cacheAdd {reg : Nat → Grp} {d : Node} (h : HeldOk reg d.held) (r idx ep : Nat)
+    (hn : ∃ m ∈ (reg ep).members, m.index = idx) : HeldOk reg (d.cacheAdd r idx ep) := by
+  intro r' k e he
+  rcases cacheAdd_entry he with ho | ⟨_, e2, e3⟩
+  · exact h r' k e ho
+  · rw [e2, e3]; exact hn
+
 theorem heldOk_flush {reg : Nat → Grp} {held : Nat → Nat → Option Nat} (h : HeldOk reg held) (r : Nat) : HeldOk reg (flush held r) := by
   intro r' k e he
   unfold flush at he
@@ -560,12 +589,12 @@ theorem nodeOk_appendTo {reg : Nat → Grp} {d : Node} (h : NodeOk reg d) (x : N
 
 theorem nodeOk_aggregate {reg : Nat → Grp} {d : Node} (h : NodeOk reg d) (B idx ep r : Nat)
     (hn : ∃ m ∈ (reg ep).members, m.index = idx) : NodeOk reg (d.aggregate B idx ep r) := by
-  have ha := heldOk_add h.held r idx ep hn
+  have ha := heldOk_cacheAdd h.held r idx ep hn
   rcases aggregate_cases B d idx ep r with ⟨_, he⟩ | ⟨_, _, he⟩ | ⟨_, _, _, x, he⟩ | ⟨_, _, _, P, he⟩ <;> rw [he]
   · exact h
   · exact nodeOk_frame h rfl rfl rfl ha
   · exact nodeOk_frame h rfl rfl rfl (heldOk_flush ha r)
-  · have h1 : NodeOk reg (d.setHeld (flush (addPartial d.held r idx ep) r)) := nodeOk_frame h rfl rfl rfl (heldOk_flush ha r)
+  · have h1 : NodeOk reg (d.setHeld (flush (d.cacheAdd r idx ep) r)) := nodeOk_frame h rfl rfl rfl (heldOk_flush ha r)
     have h2 := nodeOk_put h1 r
     exact nodeOk_frame h2 rfl rfl rfl h2.held
 
@@ -716,7 +745,7 @@ theorem nodeOk_init (reg : Nat → Grp) (cfg : Cfg) (n nIdx : Nat) (g : Grp) (hg
     exact ⟨⟨hg.symm, m, hm, rfl⟩, ⟨hg.symm, m, hm, rfl⟩, (fun p hp => by cases hp), heldOk_empty reg⟩
 
 theorem aggregate_head_same_or_put (B : Nat) (d : Node) (idx ep r : Nat) (hne : (d.aggregate B idx ep r).head ≠ d.head) :
-    r = d.head + 1 ∧ d.vault.grp.thr ≤ valid B (addPartial d.held r idx ep) r d.vault.epoch := by
+    r = d.head + 1 ∧ d.vault.grp.thr ≤ valid B (d.cacheAdd r idx ep) r d.vault.epoch := by
   rcases aggregate_cases B d idx ep r with ⟨_, he⟩ | ⟨_, _, he⟩ | ⟨_, _, _, x, he⟩ | ⟨_, hv, hr, P, he⟩
   · rw [he] at hne; exact absurd rfl hne
   · rw [he] at hne; exact absurd rfl hne
@@ -731,15 +760,15 @@ them, whoever sent them. -/
 theorem c07_beacon_needs_new_members (reg : Nat → Grp) (B : Nat) (d : Node) (hok : NodeOk reg d) (idx ep r : Nat)
     (hn : ∃ m ∈ (reg ep).members, m.index = idx) (hput : (d.aggregate B idx ep r).head ≠ d.head) :
     r = d.head + 1 ∧ ∃ L : List Nat, L.Nodup ∧ d.vault.grp.thr ≤ L.length ∧
-      ∀ k ∈ L, addPartial d.held r idx ep r k = some d.vault.epoch ∧ ∃ m ∈ d.vault.grp.members, m.index = k := by
+      ∀ k ∈ L, d.cacheAdd r idx ep r k = some d.vault.epoch ∧ ∃ m ∈ d.vault.grp.members, m.index = k := by
   obtain ⟨hr, hv⟩ := aggregate_head_same_or_put B d idx ep r hput
-  refine ⟨hr, (List.range B).filter (fun k => addPartial d.held r idx ep r k == some d.vault.epoch), ?_, hv, ?_⟩
+  refine ⟨hr, (List.range B).filter (fun k => d.cacheAdd r idx ep r k == some d.vault.epoch), ?_, hv, ?_⟩
   · exact List.Nodup.sublist List.filter_sublist List.nodup_range
   · intro k hk
-    have hk' : addPartial d.held r idx ep r k = some d.vault.epoch := by
+    have hk' : d.cacheAdd r idx ep r k = some d.vault.epoch := by
       have := (List.mem_filter.mp hk).2; simpa using this
     refine ⟨hk', ?_⟩
-    have := heldOk_add hok.held r idx ep hn r k _ hk'
+    have := heldOk_cacheAdd hok.held r idx ep hn r k _ hk'
     rw [← hok.vault.1] at this
     exact this
 
@@ -782,7 +811,7 @@ theorem aggregate_frame (B : Nat) (d : Node) (idx ep r : Nat) :
   · exact ⟨rfl, rfl, Nat.le_refl _⟩
   · exact ⟨rfl, rfl, Nat.le_refl _⟩
   · exact ⟨rfl, rfl, Nat.le_refl _⟩
-  · have := put_frame (d.setHeld (flush (addPartial d.held r idx ep) r)) r
+  · have := put_frame (d.setHeld (flush (d.cacheAdd r idx ep) r)) r
     exact ⟨this.1, this.2.1, this.2.2.2.2.2.2.2.1⟩
 
 private theorem foldPut_head : ∀ (len : Nat) (d : Node),
@@ -901,21 +930,22 @@ theorem admission_of_adm {V : Vault} {h c self : Nat} {d : Node} {m : Msg} (hh :
   simp [h1, h2, hne, he, hi]
 
 /-- progress invariant of one node of the healthy side while round `h + 1` is being signed: either it already stores
-`h + 1`, or it sits at `h` with the vault `V`, `Recover` does not have enough yet, nothing above `h + 1` is cached, every
-cached partial on `h + 1` is of the current epoch, and the partial of every index in `S` is there -/
+`h + 1`, or it sits at `h` with the vault `V`, `Recover` does not have enough yet, the partial of every index in `S` is
+there and — for a node whose cache keeps the FIRST partial of an index — every cached partial on `h + 1` is of the current
+epoch (with "newest wins" a stale one is overwritten by the member's partial, nothing is required) -/
 def Prog (B h c : Nat) (V : Vault) (S : Nat → Prop) (d : Node) : Prop :=
   d.up = true ∧ d.clock = c ∧
   (h + 1 ≤ d.head ∨
-    (d.head = h ∧ d.vault = V ∧ valid B d.held (h + 1) V.epoch < V.grp.thr ∧ (∀ r k x, d.held r k = some x → r ≤ h + 1) ∧
-      (∀ k x, d.held (h + 1) k = some x → x = V.epoch) ∧ ∀ k, S k → d.held (h + 1) k = some V.epoch))
+    (d.head = h ∧ d.vault = V ∧ valid B d.held (h + 1) V.epoch < V.grp.thr ∧
+      (d.replace = false → ∀ k x, d.held (h + 1) k = some x → x = V.epoch) ∧ ∀ k, S k → d.held (h + 1) k = some V.epoch))
 
 theorem Prog.weaken {B h c : Nat} {V : Vault} {S S' : Nat → Prop} {d : Node} (hp : Prog B h c V S d) (hs : ∀ k, S' k → S k) :
     Prog B h c V S' d := by
   obtain ⟨hu, hc, hd⟩ := hp
   refine ⟨hu, hc, ?_⟩
-  rcases hd with hd | ⟨h1, h2, h3, h4, h5, h6⟩
+  rcases hd with hd | ⟨h1, h2, h3, h5, h6⟩
   · exact Or.inl hd
-  · exact Or.inr ⟨h1, h2, h3, h4, h5, fun k hk => h6 k (hs k hk)⟩
+  · exact Or.inr ⟨h1, h2, h3, h5, fun k hk => h6 k (hs k hk)⟩
 
 theorem Prog.head_ge {B h c : Nat} {V : Vault} {S : Nat → Prop} {d : Node} (hp : Prog B h c V S d) : h ≤ d.head := by
   rcases hp.2.2 with hd | ⟨h1, _⟩ <;> omega
@@ -932,34 +962,60 @@ theorem addPartial_other (held : Nat → Nat → Option Nat) (r idx ep r' k : Na
     addPartial held r idx ep r' k = held r' k := by
   simp [addPartial, h]
 
+theorem cacheAdd_other (d : Node) (r idx ep r' k : Nat) (h : ¬ (r' = r ∧ k = idx)) : d.cacheAdd r idx ep r' k = d.held r' k := by
+  unfold Node.cacheAdd
+  cases d.replace <;> simp [setPartial, addPartial, h]
+
+/-- "newest wins": the slot of the index holds the new partial whatever was there -/
+theorem cacheAdd_replace (d : Node) (r idx ep : Nat) (h : d.replace = true) : d.cacheAdd r idx ep r idx = some ep := by
+  simp [Node.cacheAdd, h, setPartial]
+
+/-- "first wins": an empty slot takes the partial, an occupied one keeps what it has -/
+theorem cacheAdd_keep (d : Node) (r idx ep : Nat) (h : d.replace = false) :
+    d.cacheAdd r idx ep r idx = (match d.held r idx with | some x => some x | none => some ep) := by
+  simp only [Node.cacheAdd, h, addPartial, Bool.false_eq_true, if_false, and_self, if_true]
+  cases d.held r idx <;> rfl
+
+theorem put_replace (d : Node) (r : Nat) : (d.put r).replace = d.replace := by
+  unfold Node.put
+  split
+  · unfold Node.onStored
+    split
+    · rfl
+    · split <;> rfl
+  · rfl
+
+theorem aggregate_replace (B : Nat) (d : Node) (idx ep r : Nat) : (d.aggregate B idx ep r).replace = d.replace := by
+  rcases aggregate_cases B d idx ep r with ⟨_, he⟩ | ⟨_, _, he⟩ | ⟨_, _, _, x, he⟩ | ⟨_, _, _, P, he⟩ <;> rw [he]
+  · rfl
+  · rfl
+  · show ((d.setHeld _).put r).replace = d.replace
+    rw [put_replace]; rfl
+
 /-- a partial of the current epoch on `h + 1` enters the aggregator of a node that sits at `h` with the vault `V` -/
 theorem prog_aggregate' {B h c : Nat} {V : Vault} {S : Nat → Prop} {d : Node} (hu : d.up = true) (hc : d.clock = c)
-    (h1 : d.head = h) (h2 : d.vault = V) (h4 : ∀ r k x, d.held r k = some x → r ≤ h + 1)
-    (h5 : ∀ k x, d.held (h + 1) k = some x → x = V.epoch) (h6 : ∀ k, S k → d.held (h + 1) k = some V.epoch) (idx : Nat) :
+    (h1 : d.head = h) (h2 : d.vault = V)
+    (h5 : d.replace = false → ∀ k x, d.held (h + 1) k = some x → x = V.epoch) (h6 : ∀ k, S k → d.held (h + 1) k = some V.epoch) (idx : Nat) :
     Prog B h c V (fun k => S k ∨ k = idx) (d.aggregate B idx V.epoch (h + 1)) := by
   have hf := aggregate_frame B d idx V.epoch (h + 1)
   refine ⟨hf.1.trans hu, hf.2.1.trans hc, ?_⟩
-  have hnew4 : ∀ r k x, addPartial d.held (h + 1) idx V.epoch r k = some x → r ≤ h + 1 := by
-    intro r k x hx
-    by_cases hc' : r = h + 1 ∧ k = idx
-    · omega
-    · rw [addPartial_other _ _ _ _ _ _ hc'] at hx; exact h4 r k x hx
-  have hnew5 : ∀ k x, addPartial d.held (h + 1) idx V.epoch (h + 1) k = some x → x = V.epoch := by
-    intro k x hx
-    by_cases hk : k = idx
-    · subst hk
-      cases hy : d.held (h + 1) k with
-      | none => rw [addPartial_at_none _ _ _ _ hy] at hx; cases hx; rfl
-      | some y => rw [addPartial_at_some _ _ _ _ y hy] at hx; injection hx with hx'; rw [← hx']; exact h5 k y hy
-    · rw [addPartial_other _ _ _ _ _ _ (fun hc' => hk hc'.2)] at hx; exact h5 k x hx
-  have hnew6 : ∀ k, (S k ∨ k = idx) → addPartial d.held (h + 1) idx V.epoch (h + 1) k = some V.epoch := by
+  have hnew5 : d.replace = false → ∀ k x, d.cacheAdd (h + 1) idx V.epoch (h + 1) k = some x → x = V.epoch := by
+    intro hrep k x hx
+    rcases cacheAdd_entry hx with ho | ⟨_, _, e3⟩
+    · exact h5 hrep k x ho
+    · exact e3
+  have hnew6 : ∀ k, (S k ∨ k = idx) → d.cacheAdd (h + 1) idx V.epoch (h + 1) k = some V.epoch := by
     intro k hk
     by_cases hki : k = idx
     · subst hki
-      cases hy : d.held (h + 1) k with
-      | none => exact addPartial_at_none _ _ _ _ hy
-      | some y => rw [addPartial_at_some _ _ _ _ y hy, h5 k y hy]
-    · rw [addPartial_other _ _ _ _ _ _ (fun hc' => hki hc'.2)]
+      cases hrep : d.replace with
+      | true => exact cacheAdd_replace d _ _ _ hrep
+      | false =>
+        rw [cacheAdd_keep d _ _ _ hrep]
+        cases hy : d.held (h + 1) k with
+        | none => rfl
+        | some y => simp only; rw [h5 hrep k y hy]
+    · rw [cacheAdd_other _ _ _ _ _ _ (fun hc' => hki hc'.2)]
       rcases hk with hk | hk
       · exact h6 k hk
       · exact absurd hk hki
@@ -968,7 +1024,7 @@ theorem prog_aggregate' {B h c : Nat} {V : Vault} {S : Nat → Prop} {d : Node} 
   · right
     rw [he]
     rw [h2] at hv
-    exact ⟨h1, h2, hv, hnew4, hnew5, hnew6⟩
+    exact ⟨h1, h2, hv, hnew5, hnew6⟩
   · omega
   · left
     rw [he]
@@ -979,34 +1035,34 @@ theorem prog_aggregate' {B h c : Nat} {V : Vault} {S : Nat → Prop} {d : Node} 
 theorem prog_aggregate {B h c : Nat} {V : Vault} {S : Nat → Prop} {d : Node} (hp : Prog B h c V S d) (idx : Nat) :
     Prog B h c V (fun k => S k ∨ k = idx) (d.aggregate B idx V.epoch (h + 1)) := by
   obtain ⟨hu, hc, hd⟩ := hp
-  rcases hd with hd | ⟨h1, h2, _, h4, h5, h6⟩
+  rcases hd with hd | ⟨h1, h2, _, h5, h6⟩
   · have hf := aggregate_frame B d idx V.epoch (h + 1)
     exact ⟨hf.1.trans hu, hf.2.1.trans hc, Or.inl (by have := hf.2.2; omega)⟩
-  · exact prog_aggregate' hu hc h1 h2 h4 h5 h6 idx
+  · exact prog_aggregate' hu hc h1 h2 h5 h6 idx
 
-/-- `ProcessPartialBeacon` on a message that is not above `h + 1` -/
+/-- `ProcessPartialBeacon` on a message that, if it was made with a share of the epoch of `V`, is not above `h + 1` -/
 theorem prog_recvStep {B h c self : Nat} {V : Vault} {S : Nat → Prop} {d : Node} (hc : h < c) (hp : Prog B h c V S d)
-    (reach : Bool) (m : Msg) (hm : reach = true → m.round ≤ h + 1) :
+    (reach : Bool) (m : Msg) (hm : reach = true → m.epoch = V.epoch → m.round ≤ h + 1) :
     Prog B h c V (fun k => S k ∨ (reach = true ∧ Adm V h self m ∧ k = m.idx)) (d.recvStep B self reach m) := by
   rcases recvStep_cases B self reach d m with ⟨he, hne⟩ | ⟨hu, hr, ha, he⟩
   · rw [he]
     obtain ⟨hu, hcl, hd⟩ := hp
     refine ⟨hu, hcl, ?_⟩
-    rcases hd with hd | ⟨h1, h2, h3, h4, h5, h6⟩
+    rcases hd with hd | ⟨h1, h2, h3, h5, h6⟩
     · exact Or.inl hd
     · right
-      refine ⟨h1, h2, h3, h4, h5, ?_⟩
+      refine ⟨h1, h2, h3, h5, ?_⟩
       intro k hk
       rcases hk with hk | ⟨hr, hadm, _⟩
       · exact h6 k hk
       · exfalso; exact hne ⟨hu, hr, admission_of_adm h1 h2 hcl hc hadm⟩
   · rw [he]
     obtain ⟨_, hep, _, hlow, _⟩ := c03_admitted_is_member self d m ha
-    have hge := hp.head_ge
-    have hrd : m.round = h + 1 := by have := hm hr; omega
     rcases hp.2.2 with hd | ⟨h1, h2, _⟩
-    · omega
-    · rw [hrd, hep, h2]
+    · have hf := aggregate_frame B d m.idx m.epoch m.round
+      exact ⟨hf.1.trans hp.1, hf.2.1.trans hp.2.1, Or.inl (Nat.le_trans hd hf.2.2)⟩
+    · have hrd : m.round = h + 1 := by have := hm hr (by rw [hep, h2]); omega
+      rw [hrd, hep, h2]
       exact (prog_aggregate hp m.idx).weaken (fun k hk => by
         rcases hk with hk | ⟨_, _, hk⟩
         · exact Or.inl hk
@@ -1014,7 +1070,7 @@ theorem prog_recvStep {B h c self : Nat} {V : Vault} {S : Nat → Prop} {d : Nod
 
 theorem prog_deliver {B h c : Nat} {V : Vault} (conn : Nat → Nat → Bool) (j : Nat) (hc : h < c) :
     ∀ (L : List Msg) (d : Node) (S : Nat → Prop), Prog B h c V S d →
-      (∀ m ∈ L, m.dst = j → conn m.src m.dst = true → m.round ≤ h + 1) →
+      (∀ m ∈ L, m.dst = j → conn m.src m.dst = true → m.epoch = V.epoch → m.round ≤ h + 1) →
       Prog B h c V (fun k => S k ∨ ∃ m ∈ L, m.dst = j ∧ conn m.src j = true ∧ Adm V h j m ∧ k = m.idx)
         (L.foldl (fun d m => if m.dst = j then d.recvStep B j (conn m.src m.dst) m else d) d) := by
   intro L
@@ -1023,7 +1079,7 @@ theorem prog_deliver {B h c : Nat} {V : Vault} (conn : Nat → Nat → Bool) (j 
   | cons m t ih =>
     intro d S hp hq
     simp only [List.foldl_cons]
-    have hq' : ∀ m' ∈ t, m'.dst = j → conn m'.src m'.dst = true → m'.round ≤ h + 1 :=
+    have hq' : ∀ m' ∈ t, m'.dst = j → conn m'.src m'.dst = true → m'.epoch = V.epoch → m'.round ≤ h + 1 :=
       fun m' hm' => hq m' (by simp [hm'])
     by_cases hj : m.dst = j
     · simp only [hj, if_true]
@@ -1050,7 +1106,7 @@ theorem prog_deliver {B h c : Nat} {V : Vault} (conn : Nat → Nat → Bool) (j 
 short -/
 theorem Prog.done {B h c : Nat} {V : Vault} {S : Nat → Prop} {d : Node} (hp : Prog B h c V S d) (L : List Nat)
     (hn : L.Nodup) (hlt : ∀ k ∈ L, k < B) (hthr : V.grp.thr ≤ L.length) (hS : ∀ k ∈ L, S k) : h + 1 ≤ d.head := by
-  rcases hp.2.2 with hd | ⟨_, _, h3, _, _, h6⟩
+  rcases hp.2.2 with hd | ⟨_, _, h3, _, h6⟩
   · exact hd
   · exfalso
     have := valid_ge B d.held (h + 1) V.epoch L hn (fun k hk => ⟨hlt k hk, h6 k (hS k hk)⟩)
@@ -1147,13 +1203,13 @@ theorem bnpRound_le (c h : Nat) : Gen.bnpRound c h ≤ h + 1 := by
 /-- the tick of a node that sits at `h < c` with the vault `V`: its own partial goes to its aggregator, one packet to every
 other member of ITS CURRENT group -/
 theorem prog_tickStep {B h c i : Nat} {V : Vault} {d : Node} (hu : d.up = true) (hcl : d.clock = c) (hh : d.head = h) (hc : h < c)
-    (hv : d.vault = V) (hq : ∀ r k x, d.held r k = some x → r ≤ h + 1) (hq2 : ∀ k x, d.held (h + 1) k = some x → x = V.epoch) :
+    (hv : d.vault = V) (hq2 : d.replace = false → ∀ k x, d.held (h + 1) k = some x → x = V.epoch) :
     Prog B h c V (fun k => k = V.index) (d.tickStep B i).1 ∧
     (d.tickStep B i).2 = (d.recipients i).map (fun j => ⟨i, V.index, V.epoch, h + 1, j⟩) := by
   unfold Node.tickStep
   simp only [hu, Bool.not_true, Bool.false_eq_true, if_false, Node.broadcast, hcl, hh, bnpRound_behind hc, setTick_vault, hv]
   have h1 : Prog B h c V (fun k => k = V.index) ((d.setTick c).aggregate B V.index V.epoch (h + 1)) :=
-    (prog_aggregate' (S := fun _ => False) (d := d.setTick c) hu hcl hh hv hq hq2 (fun _ hk => absurd hk id) V.index).weaken
+    (prog_aggregate' (S := fun _ => False) (d := d.setTick c) hu hcl hh hv hq2 (fun _ hk => absurd hk id) V.index).weaken
       (fun k hk => Or.inr hk)
   have hrec : (d.setTick c).recipients i = d.recipients i := rfl
   split
@@ -1161,20 +1217,21 @@ theorem prog_tickStep {B h c i : Nat} {V : Vault} {d : Node} (hu : d.up = true) 
   · exact ⟨h1, by rw [hrec]⟩
 
 theorem tickStep_msgs {B i : Nat} {d : Node} {m : Msg} (hm : m ∈ (d.tickStep B i).2) :
-    d.up = true ∧ m.src = i ∧ m.round = Gen.bnpRound d.clock d.head := by
+    d.up = true ∧ m.src = i ∧ m.round = Gen.bnpRound d.clock d.head ∧ m.epoch = d.vault.epoch := by
   unfold Node.tickStep at hm
   by_cases hu : d.up = true
   · simp only [hu, Bool.not_true, Bool.false_eq_true, if_false, Node.broadcast] at hm
     have : m ∈ ((d.setTick d.clock).recipients i).map (fun j => (⟨i, (d.setTick d.clock).vault.index, (d.setTick d.clock).vault.epoch, Gen.bnpRound d.clock d.head, j⟩ : Msg)) := by
       split at hm <;> exact hm
     obtain ⟨j, _, rfl⟩ := List.mem_map.mp this
-    exact ⟨hu, rfl, rfl⟩
+    exact ⟨hu, rfl, rfl, rfl⟩
   · simp [hu] at hm
 
 /-- the healthy side after (or at) a transition: `U` are running nodes, pairwise connected, that all hold the vault of
 group `G` / epoch `e` (node `i` with share index `ix i`, a member of `G`), the indices of `G` are pairwise distinct, and
-no running node that can reach `U` is ahead of `h`. Nothing is assumed about the previous group, its threshold, how many
-of `U` were in it, or about the other nodes (leavers that keep signing, nodes still on the old vault). -/
+no running node HOLDING A SHARE OF EPOCH `e` that can reach `U` is ahead of `h`. Nothing is assumed about the previous
+group, its threshold, how many of `U` were in it, or about the other nodes (leavers that keep signing — wherever their
+heads are —, nodes still on the old vault). -/
 structure Side (s : State) (U : List Nat) (G : Grp) (e : Nat) (ix : Nat → Nat) (h : Nat) : Prop where
   nodup : U.Nodup
   lt : ∀ i ∈ U, i < s.n
@@ -1184,14 +1241,15 @@ structure Side (s : State) (U : List Nat) (G : Grp) (e : Nat) (ix : Nat → Nat)
   member : ∀ i ∈ U, (⟨i, ix i⟩ : Member) ∈ G.members
   idxLt : ∀ i ∈ U, ix i < s.nIdx
   idxNodup : (G.members.map (·.index)).Nodup
-  behind : ∀ k, k < s.n → (s.node k).up = true → (∃ j ∈ U, s.conn k j = true) → (s.node k).head ≤ h
+  behind : ∀ k, k < s.n → (s.node k).up = true → (s.node k).vault.epoch = e → (∃ j ∈ U, s.conn k j = true) → (s.node k).head ≤ h
 
-/-- nothing for a round above `h + 1` is in flight towards `U` or cached in `U`, and what `U` caches for `h + 1` is of the
-current epoch -/
+/-- no partial made with a share of epoch `e` for a round above `h + 1` is in flight towards `U` (partials of other
+epochs are refused by `U` whatever their round), and — at the members of `U` whose cache keeps the FIRST partial of an
+index — what is cached for `h + 1` is of epoch `e` (with "newest wins", `replace = true`, nothing is required: a stale
+partial is overwritten by the member's) -/
 def Quiet (s : State) (U : List Nat) (h e : Nat) : Prop :=
-  (∀ m ∈ s.msgs, m.dst ∈ U → s.conn m.src m.dst = true → m.round ≤ h + 1) ∧
-  (∀ j ∈ U, ∀ r k x, (s.node j).held r k = some x → r ≤ h + 1) ∧
-  (∀ j ∈ U, ∀ k x, (s.node j).held (h + 1) k = some x → x = e)
+  (∀ m ∈ s.msgs, m.dst ∈ U → s.conn m.src m.dst = true → m.epoch = e → m.round ≤ h + 1) ∧
+  (∀ j ∈ U, (s.node j).replace = false → ∀ k x, (s.node j).held (h + 1) k = some x → x = e)
 
 /-- the static part of a side: who is in it and with which index of `G` -/
 structure Frame (U : List Nat) (G : Grp) (ix : Nat → Nat) (B : Nat) : Prop where
@@ -1226,7 +1284,7 @@ theorem settle_progress (s : State) (U : List Nat) (G : Grp) (e : Nat) (ix : Nat
     (hconn : ∀ i ∈ U, ∀ j ∈ U, s.conn i j = true)
     (hthr : G.thr ≤ U.length) (hc : h < c) (j : Nat) (hj : j ∈ U)
     (hp : Prog s.nIdx h c ⟨G, e, ix j⟩ (fun k => k = ix j) (s.node j))
-    (hq : ∀ m ∈ s.msgs, m.dst = j → s.conn m.src m.dst = true → m.round ≤ h + 1)
+    (hq : ∀ m ∈ s.msgs, m.dst = j → s.conn m.src m.dst = true → m.epoch = e → m.round ≤ h + 1)
     (hm : ∀ i ∈ U, i ≠ j → (⟨i, ix i, e, h + 1, j⟩ : Msg) ∈ s.msgs) :
     h + 1 ≤ (s.settle.node j).head := by
   have hB := prog_foldl_pull j (List.range s.n) s hp
@@ -1273,8 +1331,7 @@ theorem c07_reshare_step_progress (s : State) (U : List Nat) (G : Grp) (e : Nat)
     intro i hi
     exact prog_tickStep (V := ⟨G, e, ix i⟩) ((e0 i).1.trans (hU.up i hi)) ((e0 i).2.2.1.trans (hclk i hi)) ((e0 i).2.1.trans (hhead i hi)) hc
       ((e0 i).2.2.2.2.trans (hU.vault i hi))
-      (fun r k x hk => hq.2.1 i hi r k x (by rw [← (e0 i).2.2.2.1]; exact hk))
-      (fun k x hk => hq.2.2 i hi k x (by rw [← (e0 i).2.2.2.1]; exact hk))
+      (fun hrep k x hk => hq.2 i hi hrep k x hk)
   have hn : (s.advance.forAll State.tick).n = s.n := a1
   have hni : (s.advance.forAll State.tick).nIdx = s.nIdx := a2
   have hcn : (s.advance.forAll State.tick).conn = s.conn := a3
@@ -1290,17 +1347,17 @@ theorem c07_reshare_step_progress (s : State) (U : List Nat) (G : Grp) (e : Nat)
     rw [show ((List.range s.advance.n).foldl State.tick s.advance).node j = _ from this]
     exact (hstep j hj).1
   · -- nothing deliverable to j is above h + 1
-    intro m hm hdst hconn
+    intro m hm hdst hconn hep
     rw [hcn] at hconn
     have hm' : m ∈ s.advance.msgs ++ (List.range s.advance.n).flatMap (fun i => (Node.tickStep s.advance.nIdx i (s.advance.node i)).2) := by
       rw [← a5]; exact hm
     rcases List.mem_append.mp hm' with h1 | h1
-    · exact hq.1 m h1 (hdst ▸ hj) hconn
+    · exact hq.1 m h1 (hdst ▸ hj) hconn hep
     · obtain ⟨i, hi, hmi⟩ := List.mem_flatMap.mp h1
       have hts := tickStep_msgs hmi
       have hbe : (s.node i).head ≤ h := hU.behind i (List.mem_range.mp hi) ((e0 i).1.symm.trans hts.1)
-        ⟨j, hj, by rw [← hts.2.1, ← hdst]; exact hconn⟩
-      rw [hts.2.2]
+        (hts.2.2.2.symm.trans hep) ⟨j, hj, by rw [← hts.2.1, ← hdst]; exact hconn⟩
+      rw [hts.2.2.1]
       have := bnpRound_le (s.advance.node i).clock (s.advance.node i).head
       have h2 : (s.advance.node i).head = (s.node i).head := (e0 i).2.1
       omega
@@ -1367,7 +1424,7 @@ example : ((((exNode.aggregate 8 0 1 5).recvStep 8 0 true ⟨1, 2, 1, 5, 0⟩).r
 def exNew : Grp := ⟨[⟨0, 0⟩, ⟨3, 2⟩, ⟨4, 5⟩], 3⟩
 def exIx (i : Nat) : Nat := if i = 0 then 0 else if i = 3 then 2 else 5
 def exT : State :=
-  { cfg := ⟨false⟩, n := 5, nIdx := 8,
+  { cfg := ⟨false, false⟩, n := 5, nIdx := 8,
     node := fun k =>
       if k = 0 ∨ k = 3 ∨ k = 4 then { up := true, head := 4, clock := 4, vault := ⟨exNew, 1, exIx k⟩, disk := ⟨exNew, 1, exIx k⟩ }
       else { up := false, head := 4, clock := 4, vault := ⟨exGap, 0, 0⟩, disk := ⟨exGap, 0, 0⟩ },
@@ -1380,7 +1437,7 @@ private theorem exT_side : Side exT [0, 3, 4] exNew 1 exIx 4 := by
   · intro i hi; simp at hi; rcases hi with h | h | h <;> subst h <;> rfl
   · intro i hi; simp at hi; rcases hi with h | h | h <;> subst h <;> decide
   · intro i hi; simp at hi; rcases hi with h | h | h <;> subst h <;> decide
-  · intro k _ _ _
+  · intro k _ _ _ _
     show (exT.node k).head ≤ 4
     unfold exT
     simp only
@@ -1390,8 +1447,7 @@ private theorem exT_held (j r k : Nat) : (exT.node j).held r k = none := by
   unfold exT; simp only; split <;> rfl
 
 private theorem exT_quiet : Quiet exT [0, 3, 4] 4 1 :=
-  ⟨fun m hm _ _ => (by cases hm), fun j _ r k x hx => (by rw [exT_held] at hx; cases hx),
-   fun j _ k x hx => (by rw [exT_held] at hx; cases hx)⟩
+  ⟨fun m hm _ _ _ => (by cases hm), fun j _ _ k x hx => (by rw [exT_held] at hx; cases hx)⟩
 
 example : ∀ j ∈ [0, 3, 4], 4 + 1 ≤ (exT.fairTick.node j).head :=
   c07_reshare_step_progress exT [0, 3, 4] exNew 1 exIx 4 5 exT_side (by decide)
@@ -1401,12 +1457,12 @@ example : ∀ j ∈ [0, 3, 4], 4 + 1 ≤ (exT.fairTick.node j).head :=
 
 example : (exT.fairTick.node 0).head = 5 ∧ (exT.fairTick.node 3).head = 5 ∧ (exT.fairTick.node 4).head = 5 := by decide
 
-private theorem exInit_head : ((State.init ⟨false⟩ 2 2 exG).node 0).head < 3 - 1 := by decide
+private theorem exInit_head : ((State.init ⟨false, false⟩ 2 2 exG).node 0).head < 3 - 1 := by decide
 
 /-- the switch registered in time fires when round `transition − 1` is stored; `Told` is then the new vault -/
-example : Told ⟨exNew, 1, 0⟩ 3 ((((State.init ⟨false⟩ 2 2 exG).apply (.announce 0 ⟨exNew, 1, 0⟩ 3)).run [.advance, .tick 0, .tick 1, .deliverAll]).node 0) :=
+example : Told ⟨exNew, 1, 0⟩ 3 ((((State.init ⟨false, false⟩ 2 2 exG).apply (.announce 0 ⟨exNew, 1, 0⟩ 3)).run [.advance, .tick 0, .tick 1, .deliverAll]).node 0) :=
   told_run 0 _ _ (by intro ev hev; simp at hev; rcases hev with h | h | h | h <;> subst h <;> trivial)
-    (c07_registration_partial (State.init ⟨false⟩ 2 2 exG) 0 ⟨exNew, 1, 0⟩ 3 exInit_head)
+    (c07_registration_partial (State.init ⟨false, false⟩ 2 2 exG) 0 ⟨exNew, 1, 0⟩ 3 exInit_head)
 
 /-! ### the late registration: kernel-checked witness -/
 
@@ -1414,7 +1470,7 @@ example : Told ⟨exNew, 1, 0⟩ 3 ((((State.init ⟨false⟩ 2 2 exG).apply (.a
 /-- two nodes, threshold 2, resharing to the same two members (epoch 1) with transition round 2. Node 0 is told before
 round 1 = transition − 1 is produced, node 1 after it stored round 1 — still before the transition time (clock round 1). -/
 def exLate (repaired : Bool) : State :=
-  (((State.init ⟨repaired⟩ 2 2 exG).apply (.announce 0 ⟨exG, 1, 0⟩ 2)).fairTick).apply (.announce 1 ⟨exG, 1, 1⟩ 2)
+  (((State.init ⟨repaired, false⟩ 2 2 exG).apply (.announce 0 ⟨exG, 1, 0⟩ 2)).fairTick).apply (.announce 1 ⟨exG, 1, 1⟩ 2)
 
 /-- **The code as it is halts.** Both members of the new group (threshold 2) are up and connected; node 1 was told late.
 Node 0 switched when it stored round 1 and signs round 2 with its new share, node 1 keeps the old one: neither lets the
@@ -1430,8 +1486,8 @@ theorem c07_late_registration_counterexample :
   decide
 
 /-- told in time (before round 1 is stored) the code as it is carries on as well -/
-example : (((((State.init ⟨false⟩ 2 2 exG).apply (.announce 0 ⟨exG, 1, 0⟩ 2)).apply (.announce 1 ⟨exG, 1, 1⟩ 2)).fairTick.fairTick.fairTick).node 1).head = 3 ∧
-    (((((State.init ⟨false⟩ 2 2 exG).apply (.announce 0 ⟨exG, 1, 0⟩ 2)).apply (.announce 1 ⟨exG, 1, 1⟩ 2)).fairTick.fairTick.fairTick).node 1).vault.epoch = 1 := by
+example : (((((State.init ⟨false, false⟩ 2 2 exG).apply (.announce 0 ⟨exG, 1, 0⟩ 2)).apply (.announce 1 ⟨exG, 1, 1⟩ 2)).fairTick.fairTick.fairTick).node 1).head = 3 ∧
+    (((((State.init ⟨false, false⟩ 2 2 exG).apply (.announce 0 ⟨exG, 1, 0⟩ 2)).apply (.announce 1 ⟨exG, 1, 1⟩ 2)).fairTick.fairTick.fairTick).node 1).vault.epoch = 1 := by
   decide
 
 end Drand.Net.Reshare
